@@ -40,7 +40,7 @@ RULE = ("short generated programs (print results, sys.argv, __name__; exit via s
         "run in the 4 modes with `hy`, plus (quick, rotating) one mode with `python -m hy` or one cached re-run of FILE / -m, (thorough) all 4 modes with `python -m hy` and both cached re-runs. "
         "Non-trivial = trailing argument list containing an option-like item (starts with '-'); distinct by "
         "(program, arguments, option spellings).")
-FLOOR = {"quick": 150, "thorough": 200}
+FLOOR = {"quick": 80, "thorough": 200}
 BUDGET = {"quick": 55, "thorough": 600}
 CASE_TIMEOUT = 240
 NEEDS_EVENTS = True      # events = child processes observed
